@@ -215,4 +215,165 @@ theorem multiplier_comp_mass (T : Tables) (s : Str) (k : Int) (mono : Bool) (c :
 
 example : modCompMult T1 (str% "Foo") 3 = .ok [(str% "H", Num.ofInt 6)] := by decide +kernel
 
+/-! ## 5. Glycan / INFO / Obs / Formula strings -/
+
+/-- `Glycan:…` (any letter case) is resolved by the glycan reader, whatever the vocabularies contain: it is the first
+branch after the number test, and a text with a colon is never a number. -/
+theorem glycan_mass (T : Tables) (s : Str) (mono : Bool) (hp : startsWith (lower s) (str% "glycan:") = true)
+    (h35 : 35 ∉ s) : parseModMass T s mono = glycanMassProforma T s mono :=
+  mass_glycan T s mono hp h35
+
+/-- … and what is looked up / parsed is the text it spells: everything after the first colon (further colons dropped) -/
+theorem glycan_mass_spelled (T : Tables) (p' t : Str) (mono : Bool) (hp : lower p' = str% "glycan:") (h35 : 35 ∉ t) :
+    parseModMass T (p' ++ t) mono =
+      (match monoLookup T.mono (t.filter (· != 58)) with
+       | some e =>
+         match (if mono then e.mono else e.avg) with
+         | some m => .ok (some (some m.toRat))
+         | none => .ok none
+       | none =>
+         match glycanMassStr T.mono mono (t.filter (· != 58)) with
+         | .ok m => .ok (some (some m))
+         | .error e => .error e) := by
+  obtain ⟨h1, _, _, h4, _, hl⟩ := prefixFacts hp (by decide) h35
+  have hs : startsWith (lower (p' ++ t)) (str% "glycan:") = true := by
+    rw [hl]; simp [startsWith, List.isPrefixOf]
+  rw [mass_glycan T _ mono hs h1]
+  simp only [glycanMassProforma, hs, h4, if_true]
+  rfl
+
+example : startsWith (lower (str% "GLYCAN:Hex2")) (str% "glycan:") = true := by decide
+
+/-- `INFO:…` never has a mass (so `mod_mass` goes on to the next alternative) -/
+theorem info_skipped (T : Tables) (m : Str) (mono : Bool) (hp : startsWith (lower m) (str% "info:") = true)
+    (h35 : 35 ∉ m) : parseModMass T m mono = .ok none := by
+  obtain ⟨p', t, rfl, hl⟩ := split_of_startsWith_lower hp
+  exact mass_info_prefix T p' t mono hl (fun h => h35 (List.mem_append_right _ h))
+
+theorem info_skipped_comp (T : Tables) (m : Str) (hp : startsWith (lower m) (str% "info:") = true)
+    (h35 : 35 ∉ m) : parseModComp T m = .ok none := by
+  obtain ⟨p', t, rfl, hl⟩ := split_of_startsWith_lower hp
+  have h35t : 35 ∉ t := fun h => h35 (List.mem_append_right _ h)
+  obtain ⟨h1, h2, _, _, _, hlw⟩ := prefixFacts hl (by decide) h35t
+  rw [parseModComp_str T h1 h2]
+  simp [compStrBody, hasPrefix, pGno, pXlmod, pResid, hlw, startsWith, List.isPrefixOf]
+
+example : modMass T0 (str% "Info:anything|Obs:+12.5") true = .ok (some (25 / 2)) := by decide +kernel
+
+/-- `Obs:x` is the number `x` (Python `float`), provided the whole text is not a PSI-MOD / Unimod id or name (the two
+`is_*_str` tests come first in `_parse_mod_mass`; that no vocabulary key starts with a reserved prefix is a table fact) -/
+theorem obs_mass (T : Tables) (p' t : Str) (mono : Bool) (hp : lower p' = str% "obs:") (h35 : 35 ∉ t)
+    (hP : isDbStr pPsi T.psimod (p' ++ t) = false) (hU : isDbStr pUnimod T.unimod (p' ++ t) = false) :
+    parseModMass T (p' ++ t) mono =
+      (match parseFloat (t.filter (· != 58)) with
+       | .val r => .ok (some (some r))
+       | .special => .ok (some none)
+       | .bad => .error .invalidDeltaMass) :=
+  mass_obs_prefix T p' t mono hp h35 hP hU
+
+/-- an observed mass has no composition — here no table hypothesis is needed (`obs:` is tested before the vocabularies) -/
+theorem obs_no_comp (T : Tables) (p' t : Str) (hp : lower p' = str% "obs:") (h35 : 35 ∉ t) :
+    parseModComp T (p' ++ t) = .ok none := by
+  obtain ⟨h1, h2, _, _, _, hlw⟩ := prefixFacts hp (by decide) h35
+  rw [parseModComp_str T h1 h2]
+  simp [compStrBody, hasPrefix, pGno, pXlmod, pResid, hlw, startsWith, List.isPrefixOf]
+
+example : parseModMass T0 (str% "OBS:-3.25") true = .ok (some (some (-13 / 4))) := by decide +kernel
+
+/-- `Formula:f` has the chemical mass of `f` (same table proviso as `obs_mass`) -/
+theorem formula_mass (T : Tables) (p' t : Str) (mono : Bool) (hp : lower p' = str% "formula:") (h35 : 35 ∉ t)
+    (hP : isDbStr pPsi T.psimod (p' ++ t) = false) (hU : isDbStr pUnimod T.unimod (p' ++ t) = false) :
+    parseModMass T (p' ++ t) mono =
+      (match chemMassStr T.mass mono (t.filter (· != 58)) [] with
+       | .ok m => .ok (some (some m))
+       | .error e => .error e) :=
+  mass_formula_prefix T p' t mono hp h35 hP hU
+
+/-- `formula_mass` in the model's own vocabulary -/
+theorem formula_mass_proforma (T : Tables) (p' t : Str) (mono : Bool) (hp : lower p' = str% "formula:")
+    (h35 : 35 ∉ t) (hP : isDbStr pPsi T.psimod (p' ++ t) = false)
+    (hU : isDbStr pUnimod T.unimod (p' ++ t) = false) :
+    parseModMass T (p' ++ t) mono = (chemMassProforma T (p' ++ t) mono).map some := by
+  obtain ⟨_, _, _, h4, _, hl⟩ := prefixFacts hp (by decide) h35
+  have hs : startsWith (lower (p' ++ t)) (str% "formula:") = true := by
+    rw [hl]; simp [startsWith, List.isPrefixOf]
+  rw [formula_mass T p' t mono hp h35 hP hU]
+  simp only [chemMassProforma, hs, h4, if_true]
+  cases chemMassStr T.mass mono (t.filter (· != 58)) [] <;> rfl
+
+/-! ## 6. a prefixed signed number is a mass shift -/
+
+/-- XLMOD:+x / X:-x -/
+theorem prefixed_number_is_shift_xlmod (T : Tables) (p' : Str) (c : Nat) (ds : Str) (mono : Bool)
+    (hp : lower p' ∈ pXlmod) (hc : c = 43 ∨ c = 45) (h35 : 35 ∉ c :: ds) :
+    parseModMass T (p' ++ c :: ds) mono =
+      (match parseFloat (c :: ds) with
+       | .val r => .ok (some (some r))
+       | .special => .ok (some none)
+       | .bad => .error .invalidDeltaMass) := by
+  rw [mass_xlmod_prefix T p' _ mono hp h35, getMass_signed T _ c ds mono hc]
+  cases parseFloat (c :: ds) <;> rfl
+
+/-- MOD:+x / M:+x / PSI-MOD:+x (no table hypothesis: a text with the prefix *is* a PSI-MOD string) -/
+theorem prefixed_number_is_shift_psi (T : Tables) (p' : Str) (c : Nat) (ds : Str) (mono : Bool)
+    (hp : lower p' ∈ pPsi) (hc : c = 43 ∨ c = 45) (h35 : 35 ∉ c :: ds) :
+    parseModMass T (p' ++ c :: ds) mono =
+      (match parseFloat (c :: ds) with
+       | .val r => .ok (some (some r))
+       | .special => .ok (some none)
+       | .bad => .error .invalidDeltaMass) := by
+  rw [mass_psi_prefix T p' _ mono hp h35, getMass_signed T _ c ds mono hc]
+  cases parseFloat (c :: ds) <;> rfl
+
+/-- UNIMOD:+x / U:+x, provided the whole text is not a bare PSI-MOD id / name (tested first by the code) -/
+theorem prefixed_number_is_shift_unimod (T : Tables) (p' : Str) (c : Nat) (ds : Str) (mono : Bool)
+    (hp : lower p' ∈ pUnimod) (hc : c = 43 ∨ c = 45) (h35 : 35 ∉ c :: ds)
+    (hP : isDbStr pPsi T.psimod (p' ++ c :: ds) = false) :
+    parseModMass T (p' ++ c :: ds) mono =
+      (match parseFloat (c :: ds) with
+       | .val r => .ok (some (some r))
+       | .special => .ok (some none)
+       | .bad => .error .invalidDeltaMass) := by
+  rw [mass_unimod_prefix T p' _ mono hp h35 hP, getMass_signed T _ c ds mono hc]
+  cases parseFloat (c :: ds) <;> rfl
+
+/-- RESID:+x / R:+x -/
+theorem prefixed_number_is_shift_resid (T : Tables) (p' : Str) (c : Nat) (ds : Str) (mono : Bool)
+    (hp : lower p' ∈ pResid) (hc : c = 43 ∨ c = 45) (h35 : 35 ∉ c :: ds) :
+    parseModMass T (p' ++ c :: ds) mono =
+      (match parseFloat (c :: ds) with
+       | .val r => .ok (some (some r))
+       | .special => .ok (some none)
+       | .bad => .error .invalidDeltaMass) := by
+  rw [mass_resid_prefix T p' _ mono hp h35, getMass_signed T _ c ds mono hc]
+  cases parseFloat (c :: ds) <;> rfl
+
+/-- GNO:+x / G:+x -/
+theorem prefixed_number_is_shift_gno (T : Tables) (p' : Str) (c : Nat) (ds : Str) (mono : Bool)
+    (hp : lower p' ∈ pGno) (hc : c = 43 ∨ c = 45) (h35 : 35 ∉ c :: ds) :
+    parseModMass T (p' ++ c :: ds) mono =
+      (match parseFloat (c :: ds) with
+       | .val r => .ok (some (some r))
+       | .special => .ok (some none)
+       | .bad => .error .invalidDeltaMass) := by
+  rw [mass_gno_prefix T p' _ mono hp h35, getMass_signed T _ c ds mono hc]
+  cases parseFloat (c :: ds) <;> rfl
+
+example : lower (str% "XLMOD:") ∈ pXlmod := by decide
+example : parseModMass T0 (str% "XLMOD:+7.25") true = .ok (some (some (29 / 4))) := by decide +kernel
+example : parseModMass T0 (str% "u:-2") false = .ok (some (some (-2))) := by decide +kernel
+example : parseModMass T0 (str% "PSI-MOD:+x") true = .error .invalidDeltaMass := by decide +kernel
+
+/-- more generally: a family prefix sends the text after its colon to that family's resolver (`_get_mass`) -/
+theorem prefixed_resolves_in_family (T : Tables) (p' t : Str) (mono : Bool) (h35 : 35 ∉ t) :
+    (lower p' ∈ pGno → parseModMass T (p' ++ t) mono = (getMass T T.gno t mono).map some) ∧
+    (lower p' ∈ pXlmod → parseModMass T (p' ++ t) mono = (getMass T T.xlmod t mono).map some) ∧
+    (lower p' ∈ pResid → parseModMass T (p' ++ t) mono = (getMass T T.resid t mono).map some) ∧
+    (lower p' ∈ pPsi → parseModMass T (p' ++ t) mono = (getMass T T.psimod t mono).map some) ∧
+    (lower p' ∈ pUnimod → isDbStr pPsi T.psimod (p' ++ t) = false →
+      parseModMass T (p' ++ t) mono = (getMass T T.unimod t mono).map some) :=
+  ⟨fun h => mass_gno_prefix T p' t mono h h35, fun h => mass_xlmod_prefix T p' t mono h h35,
+   fun h => mass_resid_prefix T p' t mono h h35, fun h => mass_psi_prefix T p' t mono h h35,
+   fun h hP => mass_unimod_prefix T p' t mono h h35 hP⟩
+
 end C10Generic
